@@ -6,6 +6,15 @@ props = [json.loads(l) for l in open(os.path.join(HERE, 'properties.jsonl'))]
 
 # id -> (category, technique, level text, level note)
 CHECKS = {
+ 'C03': ('fault_enumeration', 'Hypothesis-generated scenarios with enumerated crash prefixes on a freezable controlled backend, os._exit inside the local temp-file protocol in a child process, and permanent call failures; post-state validity oracle via independent reader + follow-up commands',
+         'For generated pre-histories, commands and completion orders, the store is frozen after k of the M mutations of the command (generated k incl. 0,1,M-1,M), or the child is killed at the j-th primitive step of a local write, or one call fails for good; the surviving state must decode, show only complete snapshots, stay usable, and clean up to exactly the referenced chunks.',
+         'Kill = freeze of the atomic in-memory store / os._exit in the child; power loss is not modelled; vk/refimpl.py decides completeness.'),
+ 'C09': ('exploration', 'Harness-owned completion order of all backend calls (controlled backend releasing parked calls per a generated schedule) + generated delay injection at lock/queue/executor boundaries + injected permanent failures; model-result, in-flight, slot and hang oracles',
+         'Every explored schedule must end with the sequential result, never more than N transfers outstanding, all slots returned after success and failure, no hang. Completion orders are enumerated by the harness; bytecode-level pre-emption is only sampled (weakest fit of the technique, see DESIGN.md section 8).',
+         'Hang is decided by a wall-clock rule (20 s without progress on a millisecond workload); delays only change timing.'),
+ 'C19': ('exploration', 'Hypothesis-generated option/source combinations, each run through replicat.__main__.main() in a pristine forked child; metamorphic precedence / source-independence / default / exclusion relations',
+         'No model of the coercion rules is used: observations (effective namespace values with types and the constructed backend arguments) of related invocations are compared with each other.',
+         'fork() of a process that imported replicat but never ran main() stands for a fresh process; _cmd_handler is replaced by a recorder that calls the real _instantiate_backend.'),
  'C12': ('fault_enumeration', 'Hypothesis-generated fault plans (backend x operation x position x kind x run length) against fault-injecting file primitives and fake S3/B2 transports; small grid enumerated exhaustively in the thorough tier',
          'Transient faults within the retry budget must be masked with exactly the intended bytes/objects, persistent ones must end in a bounded error; both clauses are evaluated on the state of the service/directory and of download sinks.',
          'Retry budgets are read from the decorators; fake services follow the published APIs; sleeps of the backoff library are removed.'),
